@@ -56,6 +56,14 @@ CHECKS.update({
          "Every finalised block of every history up to the depth bound is checked by the head monitor; at every node up to the fault depth every placement of one engine fault (6 kinds) on each of the 5 engine calls is executed, aborted blocks are retried (after a real restart when FinalizeBlock failed) and compared with a fault-free replica.",
          KA_NOTE + " Pairs of faults are not explored.", "DESIGN.md section 4 C09"),
 })
+CHECKS.update({
+ "C02": ("chainmc", "depth-bounded tree search over block histories of the real ABCI application with a vote pool (every vote produced earlier is re-presented in several ways) against a reference sequence counter / randao chain and a differential empty-block oracle",
+         "Every history up to the depth bound over fresh voted messages (block hashes, new key, process withdrawal, consolidation), failing-after-verification messages, non-voted messages, elections, membership requests, chained and same-sequence pairs, and replays (unchanged, context rewritten, other payload, other action) is executed through the real block pipeline; the sequence grows by exactly the number of successful voted transactions, the randao chains over their signatures, replays are never accepted, and failed transactions leave relayer/bridge stores equal to the same block without them.",
+         KA_NOTE, "DESIGN.md section 4 C02"),
+ "C08": ("chainmc", "depth-bounded tree search over block histories; at every state: real PrepareProposal over 7 mempool classes checked by a second replica, and 26 single mutations of a well-formed proposal through ProcessProposal/FinalizeBlock",
+         "At every state of the search the real PrepareProposal output (mempool classes incl. 20 valid txs, stale and foreign-signer txs) must be accepted by an independent replica, stay within 16 txs and execute its block message successfully; every single mutation of a well-formed proposal from a 26-entry menu must be rejected and must not move the head when finalised anyway.",
+         KA_NOTE + " Two validators; clocks of validators are not behind the proposer's.", "DESIGN.md section 4 C08"),
+})
 PENDING = {}
 
 def main():
